@@ -90,6 +90,12 @@ class Spec:
             return IntS, ('$mathint',)
         if txt == 'fn':
             return Fn, ('$fn',)
+        if txt == 'Addr':
+            return Addr, '$addr'
+        mo = re.match(r'^opt\[(.*)\]$', txt)
+        if mo:
+            t = self.resolve_type(ex, mo.group(1))
+            return ex.ts.opt_sort(ex.ts.sort(t)), ('$opt', t)
         m = re.match(r'^\[(\w+)\](.*)$', txt)
         if m:
             isort = {'Addr': Addr, 'mathint': IntS, 'Str': Str}.get(m.group(1))
@@ -259,7 +265,9 @@ class Spec:
             c = z3.Const('lam_' + e[1], ex.ts.sort(t))
             env2 = dict(env)
             env2[e[1]] = ('val', ex.ts.unpack(t, c))
-            body = self.eval(ex, e[3], env2, st, old)
+            st_q = st.copy()
+            old_q = old.copy() if old is not st else st_q
+            body = self.eval(ex, e[3], env2, st_q, old_q)
             if isinstance(body.t, tuple) and body.t[0] == '$opt':
                 return V(('$map', t, body.t[1]), z3.Lambda([c], body.x))
             return V(('$arr', t, body.t), z3.Lambda([c], ex.term(body)))
@@ -278,7 +286,13 @@ class Spec:
                     c = z3.Const('q_' + vn, ex.ts.sort(t))
                     env2[vn] = ('val', ex.ts.unpack(t, c))
                 bound.append(c)
-            body = self.eval_bool(ex, e[2], env2, st, old)
+            # the body is evaluated on scratch copies: facts recorded while evaluating it mention the bound variables
+            st_q = st.copy()
+            old_q = old.copy() if old is not st else st_q
+            body = self.eval_bool(ex, e[2], env2, st_q, old_q)
+            for g_, t_ in st_q.ghost.items():
+                if g_ not in st.ghost:
+                    st.ghost[g_] = t_
             q = z3.ForAll(bound, body) if k == 'forall' else z3.Exists(bound, body)
             return V('bool', q)
         if k == 'un':
@@ -293,6 +307,10 @@ class Spec:
                 return V(a.t, ~a.x)
         if k == 'bin':
             return self.eval_bin(ex, e, env, st, old)
+        if k in ('field', 'index'):
+            pl = self.place(ex, e, env, st, old)
+            if pl is not None:
+                return ex.load(st, pl[1], pl[0])
         if k == 'field':
             a = self.eval(ex, e[1], env, st, old)
             return self.field(ex, a, e[2], st)
@@ -313,6 +331,68 @@ class Spec:
                 return V('string', STR_EMPTY)
             return V('string', z3.Const('strlit_' + mangle(e[1])[:60], Str))
         raise EngineError('spec eval ' + str(e))
+
+    def place(self, ex, e, env, st, old):
+        """Address and type of a place expression  p.f,  p.f[i],  s[i].f ...  (None if e is not a memory place)."""
+        k = e[0]
+        if k == 'field':
+            base = self.place(ex, e[1], env, st, old)
+            if base is not None:
+                p, t = base
+                rep = ex.ts.rep(t)
+                if rep[0] == 'addr':
+                    # pointer-typed place: dereference
+                    tt = self.prog.under(t)[1]
+                    if tt['kind'] != 'pointer':
+                        return None
+                    ptr = ex.load(st, t, p)
+                    return self.field_place(ex, ptr.x, tt['elem'], e[2], st)
+                if rep[0] == 'struct':
+                    return self.field_place(ex, p, t, e[2], st)
+                return None
+            a = self.eval(ex, e[1], env, st, old)
+            if isinstance(a.t, str) and not a.t.startswith('$') and ex.ts.rep(a.t)[0] == 'addr' and isinstance(a.x, PAddr):
+                tt = self.prog.under(a.t)[1]
+                if tt['kind'] == 'pointer' and self.prog.kind(tt['elem']) == 'struct':
+                    return self.field_place(ex, a.x, tt['elem'], e[2], st)
+            return None
+        if k == 'index':
+            base = self.place(ex, e[1], env, st, old)
+            if base is None:
+                return None
+            p, t = base
+            rep = ex.ts.rep(t)
+            i = self.eval(ex, e[2], env, st, old)
+            if self.is_lit(i):
+                i = V('int', z3.BitVecVal(i.x, 64))
+            sel = ex.selc(ex.to64(i))
+            if rep[0] == 'array':
+                return p.ext(sel), rep[1]
+            if rep[0] == 'slice':
+                sl = ex.load(st, t, p)
+                return sl.x[0].x.ext(sel), rep[1]
+            return None
+        return None
+
+    def field_place(self, ex, p, stype, name, st):
+        r = ex.ts.rep(stype)
+        if r[0] != 'struct':
+            return None
+        for i, (fn, ft) in enumerate(r[1]):
+            if fn == name:
+                return p.ext(i), ft
+        for i, (fn, ft) in enumerate(r[1]):
+            fr = ex.ts.rep(ft)
+            if fr[0] == 'struct' and any(n2 == name for n2, _ in fr[1]):
+                return self.field_place(ex, p.ext(i), ft, name, st)
+            if fr[0] == 'addr':
+                ptt = self.prog.under(ft)[1]
+                if ptt['kind'] == 'pointer' and self.prog.kind(ptt['elem']) == 'struct':
+                    er = ex.ts.rep(ptt['elem'])
+                    if any(n2 == name for n2, _ in er[1]):
+                        ptr = ex.load(st, ft, p.ext(i))
+                        return self.field_place(ex, ptr.x, ptt['elem'], name, st)
+        return None
 
     def eval_id(self, ex, name, env, st, old):
         if name in env:
@@ -413,6 +493,8 @@ class Spec:
                 it = ex.term(idx) if not isinstance(idx.x, list) else ex.ts.pack(idx)
                 r = z3.Select(a.x, it)
                 d = t[2]
+                if d == '$addr':
+                    return V('$addr', PAddr(base=r, lo=-10 ** 9))
                 if isinstance(d, str) and not d.startswith('$'):
                     return ex.ts.unpack(d, r)
                 return V(d, r)
@@ -603,6 +685,11 @@ class Spec:
             return ex.ts.unpack(pts[j], z3.Select(st.ghost[names[2 + j]], ii))
         if fn == 'nspawn':
             return V('int', st.ghost.setdefault('$nspawn', z3.Const('g0_nspawn', BV64)))
+        if fn in ('spawnedbefore', 'spawnfn', 'finalizer', 'closed', 'tickerchan') and getattr(ex, 'assume_mode', 0):
+            # facts about the callee's own trace: nothing is known about them at the call site
+            return V('bool', ex.fresh('opaque_' + fn, BoolS))
+        if fn in ('itercalls', 'ncall', 'iterselect', 'selectchan') and getattr(ex, 'assume_mode', 0):
+            raise EngineError('%s used in a clause that callers assume' % fn)
         if fn == 'spawnedbefore':
             # every goroutine was started before object x was allocated (so it cannot reference x)
             x = ev(args[0])
@@ -673,6 +760,19 @@ class Spec:
             o = ev(args[0])
             g = st.ghost.setdefault('$inv', z3.Const('g0_inv', z3.ArraySort(Addr, BoolS)))
             return V('bool', z3.Select(g, ex.term(o)))
+        if fn == 'as':
+            x = ev(args[0])
+            t = self.resolve_type(ex, self.typearg(args[1]))
+            return V(t, x.x)
+        if fn == 'load':
+            t = self.resolve_type(ex, self.typearg(args[0]))
+            pv = ev(args[1])
+            return ex.load(st, t, pv.x)
+        if fn == 'addr':
+            pl = self.place(ex, args[0], env, st, old)
+            if pl is None:
+                raise EngineError('addr() of a non-place')
+            return V(self.ptr_to(pl[1]), pl[0])
         if fn in ('u64', 'i64'):
             x = ev(args[0])
             if self.is_lit(x):
@@ -696,6 +796,19 @@ class Spec:
             return self.index(ex, g, ev(args[0]), st)
         # a pure Go function of the program, executed symbolically (loop-free helpers)
         target = self.prog.find_func(fn)
+        if target and self.intrinsic(target) is not None:
+            f = self.prog.funcs[target]
+            vals = []
+            for a, p in zip(args, f['params']):
+                v = ev(a)
+                if self.is_lit(v):
+                    v = self.lit_as(ex, v, ex.zero(p['t']))
+                vals.append(V(p['t'], v.x))
+            out = []
+            sig = self.prog.under(f['sig'])[1]
+            self.intrinsic(target)(ex, Frame({'name': target, 'blocks': []}), {'pos': '', 'name': None, 'type': (sig.get('results') or [None])[0]},
+                                   target, vals, st.copy(), lambda s2, r: out.append(r))
+            return out[0]
         if target:
             f = self.prog.funcs[target]
             vals = []
@@ -828,7 +941,11 @@ class Spec:
                     self.havoc_all(ex, con, env2, st2, old)
                     self.callee_reenters(ex, con, st2, site, env2)
                     havocked = True
-                g = self.eval_bool(ex, c.expr, env2, st2, old)
+                ex.assume_mode = getattr(ex, 'assume_mode', 0) + 1
+                try:
+                    g = self.eval_bool(ex, c.expr, env2, st2, old)
+                finally:
+                    ex.assume_mode -= 1
                 st2.pc.append(g)
                 return step(i + 1, st2, env2, havocked)
             raise EngineError('clause kind ' + c.kind)
